@@ -80,6 +80,14 @@ def handle (args : List String) : String :=
       if dim < 2 || order = 0 then return "bad-op"
       if θ.size ≠ (if isReal then dim * (dim - 1) / 2 else dim * dim - 1) then return "bad-op"
       return outM dim dim (soCayley (K := CF) Num.inv (cfScalars dim) dim order isReal f)
+  | ["kraus", din, dout, cr, x] => Id.run do
+      let some din := din.toNat? | return "bad-op"
+      let some dout := dout.toNat? | return "bad-op"
+      let some cr := cr.toNat? | return "bad-op"
+      let some x := parseCFs? x | return "bad-op"
+      if x.size ≠ cr * dout * din || din = 0 then return "bad-op"
+      let X : NMat CF := NMat.ofFn (cr * dout) din fun r c => x.getD (r * din + c) 0
+      return outC ((List.range cr).flatMap fun s => (List.range dout).flatMap fun o => (List.range din).map fun i => krausOfStiefel dout X s o i)
   | ["choi", din, dout, cr, x] => Id.run do
       let some din := din.toNat? | return "bad-op"
       let some dout := dout.toNat? | return "bad-op"
